@@ -221,25 +221,54 @@ Definition is_true_string (s : bytes) (exitnum : Z) : bool :=
     | _ => negb (existsb (bytes_eqb w) false_words)
     end.
 
-(* ConvertGoType(v, Number) for the conversions compareTypes can ask for.
-   A string would go through strconv.ParseFloat: not modelled (None). *)
-Definition to_num (v : value) : option float :=
-  match v with
-  | VNum f => Some f
-  | VBool b => Some (if b then 1 else 0)
-  | VNull => Some 0
-  | VStr _ => None
+(* floats as table keys / observations: compared by bit-pattern class (NaN as one class) *)
+Definition class_code (f : float) : N :=
+  match PrimFloat.classify f with
+  | PNormal => 1 | NNormal => 2 | PSubn => 3 | NSubn => 4
+  | PZero => 5 | NZero => 6 | PInf => 7 | NInf => 8 | NaN => 9
+  end%N.
+
+Definition same_float (a b : float) : bool :=
+  N.eqb (class_code a) (class_code b) &&
+  (N.eqb (class_code a) 9 || PrimFloat.eqb a b).
+
+(* Library behaviour that is not modelled enters as tables observed on the real
+   code for the strings / numbers of the case at hand:
+     or_parse s = types.ConvertGoType(s, Number)   (TrimSpace, "" -> "0", strconv.ParseFloat; None inside = error)
+     or_fmt f   = types.FloatToString(f)           (strconv.FormatFloat(f,'f',-1,64))
+   A key missing from a table makes the model give up (no value). *)
+Record oracles := { or_parse : list (bytes * option float); or_fmt : list (float * bytes) }.
+
+Definition no_oracles : oracles := {| or_parse := []; or_fmt := [] |}.
+
+Fixpoint lookup_parse (t : list (bytes * option float)) (s : bytes) : option (option float) :=
+  match t with
+  | [] => None
+  | (k, v) :: t' => if bytes_eqb k s then Some v else lookup_parse t' s
   end.
 
-(* ConvertGoType(v, String) where the text is needed. A number would go through
-   strconv.FormatFloat: not modelled (None); compareTypes never asks for it
-   unless a string is compared with a number. *)
-Definition to_str (v : value) : option bytes :=
+Fixpoint lookup_fmt (t : list (float * bytes)) (f : float) : option bytes :=
+  match t with
+  | [] => None
+  | (k, v) :: t' => if same_float k f then Some v else lookup_fmt t' f
+  end.
+
+(* ConvertGoType(v, Number): outer None = not in the table, inner None = Go returns an error *)
+Definition to_num (orc : oracles) (v : value) : option (option float) :=
+  match v with
+  | VNum f => Some (Some f)
+  | VBool b => Some (Some (if b then 1 else 0))
+  | VNull => Some (Some 0)
+  | VStr s => lookup_parse (or_parse orc) s
+  end.
+
+(* ConvertGoType(v, String) *)
+Definition to_str (orc : oracles) (v : value) : option bytes :=
   match v with
   | VStr s => Some s
   | VBool b => Some (if b then s_true else s_false)
   | VNull => Some []
-  | VNum _ => None
+  | VNum f => lookup_fmt (or_fmt orc) f
   end.
 
 Definition is_num (v : value) : bool := match v with VNum _ => true | _ => false end.
@@ -247,8 +276,16 @@ Definition is_num (v : value) : bool := match v with VNum _ => true | _ => false
 Inductive cmp_pair :=
 | CF (x y : float) | CS (a b : bytes) | CB (a b : bool) | CNil.
 
-(* compareTypes, non-strict branch *)
-Definition compare_types (a b : value) : option cmp_pair :=
+Definition compare_as_string (orc : oracles) (a b : value) : option cmp_pair :=
+  match to_str orc a, to_str orc b with
+  | Some s, Some t => Some (CS s t)
+  | _, _ => None
+  end.
+
+(* compareTypes, non-strict branch: same data type -> as is; a number on either
+   side -> both to numbers, and if either conversion fails ("goto compareAsString")
+   both to strings; otherwise both to strings *)
+Definition compare_types (orc : oracles) (a b : value) : option cmp_pair :=
   match a, b with
   | VNum x, VNum y => Some (CF x y)
   | VStr s, VStr t => Some (CS s t)
@@ -256,20 +293,22 @@ Definition compare_types (a b : value) : option cmp_pair :=
   | VNull, VNull => Some CNil
   | _, _ =>
     if is_num a || is_num b then
-      match to_num a, to_num b with
-      | Some x, Some y => Some (CF x y)
-      | _, _ => None            (* string against number: ParseFloat / FloatToString, not modelled *)
+      match to_num orc a with
+      | None => None
+      | Some None => compare_as_string orc a b
+      | Some (Some x) =>
+        match to_num orc b with
+        | None => None
+        | Some None => compare_as_string orc a b
+        | Some (Some y) => Some (CF x y)
+        end
       end
-    else
-      match to_str a, to_str b with
-      | Some s, Some t => Some (CS s t)
-      | _, _ => None
-      end
+    else compare_as_string orc a b
   end.
 
 (* expEqualFunc: lv == rv on interface values *)
-Definition equal_values (a b : value) : option bool :=
-  match compare_types a b with
+Definition equal_values (orc : oracles) (a b : value) : option bool :=
+  match compare_types orc a b with
   | Some (CF x y) => Some (PrimFloat.eqb x y)
   | Some (CS s t) => Some (bytes_eqb s t)
   | Some (CB x y) => Some (Bool.eqb x y)
@@ -279,8 +318,8 @@ Definition equal_values (a b : value) : option bool :=
 
 (* expGtLt: float or string comparison, anything else is an error *)
 Definition order_values (ff : float -> float -> bool) (fs : bytes -> bytes -> bool)
-           (a b : value) : option bool :=
-  match compare_types a b with
+           (orc : oracles) (a b : value) : option bool :=
+  match compare_types orc a b with
   | Some (CF x y) => Some (ff x y)
   | Some (CS s t) => Some (fs s t)
   | _ => None
@@ -313,18 +352,18 @@ Definition arith (f : float -> float -> float) (a b : value) : option value :=
   | _, _ => None               (* validateExpression: cannot Add non-numeric data types *)
   end.
 
-Definition apply_go (o : sym) (a b : value) : option value :=
+Definition apply_go (orc : oracles) (o : sym) (a b : value) : option value :=
   match o with
   | Mul => arith PrimFloat.mul a b
   | Div => arith PrimFloat.div a b
   | Add => arith PrimFloat.add a b
   | Sub => arith PrimFloat.sub a b
-  | Gt => option_map VBool (order_values (fun x y => PrimFloat.ltb y x) (fun s t => bytes_ltb t s) a b)
-  | Ge => option_map VBool (order_values (fun x y => PrimFloat.leb y x) (fun s t => bytes_leb t s) a b)
-  | Lt => option_map VBool (order_values PrimFloat.ltb bytes_ltb a b)
-  | Le => option_map VBool (order_values PrimFloat.leb bytes_leb a b)
-  | Eq => option_map VBool (equal_values a b)
-  | Ne => option_map (fun x => VBool (negb x)) (equal_values a b)
+  | Gt => option_map VBool (order_values (fun x y => PrimFloat.ltb y x) (fun s t => bytes_ltb t s) orc a b)
+  | Ge => option_map VBool (order_values (fun x y => PrimFloat.leb y x) (fun s t => bytes_leb t s) orc a b)
+  | Lt => option_map VBool (order_values PrimFloat.ltb bytes_ltb orc a b)
+  | Le => option_map VBool (order_values PrimFloat.leb bytes_leb orc a b)
+  | Eq => option_map VBool (equal_values orc a b)
+  | Ne => option_map (fun x => VBool (negb x)) (equal_values orc a b)
   | And => Some (VBool (truthy_logic a && truthy_logic b))
   | Or => Some (VBool (truthy_logic a || truthy_logic b))
   | Elvis => Some (if truthy_elvis a then a else b)
@@ -332,4 +371,5 @@ Definition apply_go (o : sym) (a b : value) : option value :=
   end.
 
 (* the expression evaluator of the Go code, tables from Gen *)
-Definition eval_expr (ts : list ptok) : Outcome value := eval_group apply_go groups ts.
+Definition eval_expr (orc : oracles) (ts : list ptok) : Outcome value :=
+  eval_group (apply_go orc) groups ts.
